@@ -21,6 +21,7 @@ func init() {
 			}
 			readBytes := r.P.FuncObj("dkv/fields", "ReadVarBytes")
 			readU64 := r.P.FuncObj("dkv/fields", "ReadUint64")
+			readTomb := r.P.FuncObj("dkv/fields", "ReadTombstone")
 			n := 0
 			for _, fname := range []string{"(*Table).Get", "(*Table).ScanPrefix"} {
 				f := r.P.Func("dkv/sst", fname)
@@ -67,8 +68,24 @@ func init() {
 					if e := vals["isDelete"]; e != nil {
 						if tv, has := info.Types[e]; has && tv.Value != nil {
 							del = tv.Value.String() == "true"
+						} else if from(e, readTomb) {
+							// the record's own tombstone flag: the value is attached afterwards on the live path
+							// (entry.value = <value read>); which path is which is decided by C07.l / C07.m
+							attached := false
+							inspect(f.Decl.Body, func(m ast.Node) bool {
+								if as, isAs := m.(*ast.AssignStmt); isAs && len(as.Lhs) == 1 && len(as.Rhs) == 1 {
+									if sel, isSel := ast.Unparen(as.Lhs[0]).(*ast.SelectorExpr); isSel && sel.Sel.Name == "value" && derefType(info.TypeOf(sel.X)) == entT.Type() && from(as.Rhs[0], readBytes) {
+										attached = true
+									}
+								}
+								return true
+							})
+							if !attached && !from(vals["value"], readBytes) {
+								r.Fail(id+":value", cl.Pos(), nil, "an entry marked with the record's tombstone flag never receives the record's value on the live path")
+							}
+							return true
 						} else {
-							r.Fail(id+":isDelete", cl.Pos(), nil, "the deleted mark of an SST entry is not a constant of the branch that built it")
+							r.Fail(id+":isDelete", cl.Pos(), nil, "the deleted mark of an SST entry is neither a constant of the branch that built it nor the record's tombstone flag")
 							return true
 						}
 					}
@@ -81,8 +98,8 @@ func init() {
 					return true
 				})
 			}
-			if n < 4 {
-				r.Error("floor: %d sst.Entry literals in Table.Get / Table.ScanPrefix (4 confirmed by hand)", n)
+			if n < 2 {
+				r.Error("floor: %d sst.Entry literals in Table.Get / Table.ScanPrefix (4 confirmed by hand, at least one per function)", n)
 			}
 		}})
 }
